@@ -159,3 +159,13 @@ Example C10_example_edge_keys :
      RUnit; RFound None;
      RUnit; RFound (Some 1)].
 Proof. vm_compute. reflexivity. Qed.
+
+(* the whole PGN counts, the extended data page bit included: a frame on the other page is not an answer *)
+Example C10_example_pgn_pages :
+  snd (run_log init_world
+         [NewMatrix; AddFrame 0 0x1AFEF100 true 1 None true;      (* PGN 0x2FEF1 *)
+          FrameByPgn 0 0xFEF1; FrameByPgn 0 0x2FEF1;
+          AddFrame 0 0x18FEF100 true 2 None true;                  (* PGN 0xFEF1 *)
+          FrameByPgn 0 0xFEF1; DelFrameUid 0 1; FrameByPgn 0 0xFEF1; FrameByPgn 0 0x2FEF1]) =
+    [RUnit; RFound (Some 0); RFound None; RFound (Some 0); RFound (Some 1); RFound (Some 1); RUnit; RFound None; RFound (Some 0)].
+Proof. vm_compute. reflexivity. Qed.
